@@ -98,13 +98,38 @@ def call_asgi(app, scope, messages=None, fd_reader=None):
 _tmp = None
 
 
+def sweep_tmp():
+    """Remove scratch trees (baize-verif-<pid>-*, baize-c14-<pid>-*) whose owner process is gone: pool workers
+    that are terminated never run their exit handlers."""
+    import shutil
+    tmp = tempfile.gettempdir()
+    try:
+        names = os.listdir(tmp)
+    except OSError:
+        return
+    for n in names:
+        if n.startswith("baize-verif-") or n.startswith("baize-c14-"):
+            try:
+                os.kill(int(n.split("-")[2]), 0)
+            except ProcessLookupError:
+                shutil.rmtree(os.path.join(tmp, n), True)
+            except (ValueError, IndexError, PermissionError):
+                pass
+
+
+def _finalize_tree(d):
+    import atexit
+    import shutil
+    import multiprocessing.util as mpu
+    atexit.register(shutil.rmtree, d, True)
+    mpu.Finalize(None, shutil.rmtree, args=(d, True), exitpriority=1)    # forked pool workers skip atexit
+
+
 def tmpdir():
     global _tmp
     if _tmp is None:
         _tmp = tempfile.mkdtemp(prefix="baize-verif-%d-" % os.getpid())
-        import atexit
-        import shutil
-        atexit.register(shutil.rmtree, _tmp, True)
+        _finalize_tree(_tmp)
     return _tmp
 
 
